@@ -1,6 +1,7 @@
 package main
 
 import (
+	"math"
 	"math/rand"
 	"sort"
 	"strings"
@@ -225,6 +226,22 @@ func (r *c12Runner) Do(op []string) string {
 			items[i] = "[" + itoa(k) + "," + ints(m[k]) + "]"
 		}
 		return plist(items)
+	case "groupbynan":
+		// GroupBy with a float64 key function that yields NaN for the multiples of 3 (a key that is not equal to
+		// itself: every such element opens a group of its own) and x%2 otherwise: <total number of elements in all
+		// groups> <the elements under key 0> <the elements under key 1>
+		in := parseInts(op[1])
+		m := gogu.GroupBy(in, func(x int) float64 {
+			if x%3 == 0 {
+				return math.NaN()
+			}
+			return float64(((x % 2) + 2) % 2)
+		})
+		total := 0
+		for _, g := range m {
+			total += len(g)
+		}
+		return itoa(total) + " " + ints(m[0]) + " " + ints(m[1])
 	case "zip":
 		m := c12Matrix(op[1])
 		z := gogu.Zip(m...)
@@ -321,6 +338,7 @@ func c12SliceOps(s []int, maxChunk, maxDrop int, seeds []int) []string {
 	for _, f := range c12Keys {
 		ops = append(ops, "groupby "+f+" "+ss, "map "+f+" "+ss)
 	}
+	ops = append(ops, "groupbynan "+ss)
 	ops = append(ops, "foreach "+ss, "foreachright "+ss, "reverse "+ss)
 	for i, r := range c12Reds {
 		ops = append(ops, "reduce "+r+" "+ss+" "+itoa(i-1))
